@@ -42,17 +42,21 @@ fn material() -> &'static Material {
         let key = PrivateKeyDer::from_pem_slice(KEY.as_bytes()).expect("key");
         let mut roots = rustls::RootCertStore::empty();
         roots.add(cert.clone()).expect("root");
-        let rustls_client = rustls::ClientConfig::builder_with_provider(provider.clone())
+        // No session resumption: a run must not depend on the runs executed before it in the same process.
+        let mut rustls_client = rustls::ClientConfig::builder_with_provider(provider.clone())
             .with_safe_default_protocol_versions()
             .unwrap()
             .with_root_certificates(roots)
             .with_no_client_auth();
-        let rustls_server = rustls::ServerConfig::builder_with_provider(provider)
+        rustls_client.resumption = rustls::client::Resumption::disabled();
+        let mut rustls_server = rustls::ServerConfig::builder_with_provider(provider)
             .with_safe_default_protocol_versions()
             .unwrap()
             .with_no_client_auth()
             .with_single_cert(vec![cert], key)
             .expect("server config");
+        rustls_server.session_storage = Arc::new(rustls::server::NoServerSessionStorage {});
+        rustls_server.send_tls13_tickets = 0;
         let native_client = native_tls::TlsConnector::builder()
             .add_root_certificate(native_tls::Certificate::from_pem(CERT.as_bytes()).expect("native cert"))
             .build()
